@@ -28,6 +28,9 @@ pub const ERR_TEXTS: &[&str] = &[
     "two  blanks inside",
     "tab\there",
     "trailing tab\t",
+    // ... or contain white space that is not ASCII white space
+    "nb\u{a0}sp inside",
+    "em\u{2003}space and\u{b}vt",
 ];
 
 pub const REGEXES: &[&str] = &[
